@@ -1,0 +1,12 @@
+//go:build verif
+
+package notification
+
+import "github.com/jdillenkofer/pithos/internal/storage"
+
+// History predicate used by the contracts in zz_contracts_verif.go (see /verif/DESIGN.md): uninterpreted for the
+// verifier; the only facts about it are the `history` clauses of the function under verification.
+
+// histEntriesBuilt: in this execution the outbox entries of this event (bucket, key, event name) have been computed
+// from the bucket's notification configuration without error.
+func histEntriesBuilt(bucket storage.BucketName, key storage.ObjectKey, eventName string) bool { return true }
